@@ -11,7 +11,10 @@ Tie, re-established on every run:
       each script's own figures; every recorded call is replayed on the model inside Coq
       (Tables/ValidateCasesCheck.v, one shard per core).
 Oracle (independent of the model): the harness re-reads every accepted object through the public
-Terminal tree and judges it with its own typing / size / lock / key analyses (harness/src/vgen.rs)."""
+Terminal tree and judges it with its own typing / size / lock / key analyses (harness/src/vgen.rs).
+  (c) constructor stream (harness/src/vctor.rs, model Ms/ValidateCtorModel.v): every descriptor-level public constructor
+      taking keys or a Threshold of keys on directed + generated inputs; accepted objects judged by the same
+      independent analyses and against Descriptor::from_str of the printed form; every call replayed in Coq."""
 import collections, concurrent.futures, json, os, re, shutil
 import vlib
 
@@ -506,7 +509,8 @@ def run(rep, tier, seed, replay):
     rep.coverage.update({
         "obligations": obligations, "discharged": discharged,
         "checker_cmd": "make -C coq ; coqc Properties/C12.v ; verif-harness validate params | coqc Tables/ParamTablesCheck.v ; "
-                       "verif-harness validate cases (x%d shards) | coqc Tables/ValidateCasesCheck.v" % cfg["shards"],
+                       "verif-harness validate cases (x%d shards) | coqc Tables/ValidateCasesCheck.v ; "
+                       "verif-harness validate ctors | coqc Tables/ValidateCasesCheck.v" % cfg["shards"],
         "trusted_base": vlib.TRUSTED_BASE_COMMON + [
             "Ms/ValidateSpec.v (hand-written: fieldwise order, defect of each switch, figure of each limit, rules of each context)",
             "harness/src/vgen.rs (independent typing / size / lock / key analyses used as oracle; port of Ms/Spec.v)",
@@ -526,7 +530,8 @@ def run(rep, tier, seed, replay):
     rep.assumptions = [
         "the summary record abstracts the script: base type / malleability / signedness (C05, C06), ext figures (C09), script size (C04), "
         "mixed-lock predicate (C18) are inputs of the model, cross-checked on every accepted object by the harness's own analyses",
-        "strings only: ASTs built with from_ast/from_components_unchecked reach validate through the same method (tied by the rows of this run)",
+        "string stream: ASTs built with from_ast/from_components_unchecked reach validate through the same method (tied by the rows of this run); "
+        "the constructor stream builds its objects programmatically (Threshold of keys, unchecked multi fragments, from_ast)",
         "error classes are compared exactly on single-defect rows (one switch off / one limit moved), accept/reject elsewhere (DESIGN App. C)",
         "allow_compressed_keys is inert while x-only keys are allowed (documented in validate_pk); stated as refuted + partial theorems, not as a finding",
     ]
